@@ -1,7 +1,7 @@
 #!/opt/veriftools/pyvenv/bin/python
 """Runs the quick check against every seeded change (scratch copies outside /repo and /verif) and records, per seed,
 the exit code, whether a proof obligation failed (which), and whether the native stage produced a witness.
-Writes seeded/MATRIX.json and prints a markdown table.  usage: tools/seedmatrix.py [jobs]"""
+Writes seeded/MATRIX.json and prints a markdown table.  usage: tools/seedmatrix.py [jobs [seed-name-substring ...]]"""
 import concurrent.futures as cf
 import json
 import os
@@ -36,9 +36,14 @@ def one(sd):
 def main():
   jobs = int(sys.argv[1]) if len(sys.argv) > 1 else 4
   seeds = sorted(x for x in os.listdir(os.path.join(VERIF, 'seeded')) if os.path.isdir(os.path.join(VERIF, 'seeded', x)))
+  only = sys.argv[2:]        # optional: substrings; only matching seeds are re-run, the other rows are kept from MATRIX.json
+  mpath = os.path.join(VERIF, 'seeded', 'MATRIX.json')
+  old = {r['seed']: r for r in (json.load(open(mpath)) if os.path.exists(mpath) else [])}
+  todo = [x for x in seeds if not only or any(o in x for o in only) or x not in old]
   with cf.ThreadPoolExecutor(jobs) as ex:
-    rows = list(ex.map(one, seeds))
-  json.dump(rows, open(os.path.join(VERIF, 'seeded', 'MATRIX.json'), 'w'), indent=1)
+    new = {r['seed']: r for r in ex.map(one, todo)}
+  rows = [new.get(x) or old[x] for x in seeds]
+  json.dump(rows, open(mpath, 'w'), indent=1)
   print('| seed | files changed | exit | proof obligations that fail | native witness |')
   print('|---|---|---|---|---|')
   for r in rows:
